@@ -38,13 +38,63 @@ type memStore struct {
 	mu  sync.Mutex
 	m   map[string][]byte
 	log []logEntry
+
+	// one-shot fault injection: the k-th next call of the armed class fails with errInjected
+	faultClass string // "get", "put", "del", "bput", "bdel", "bcommit"; "" = none armed
+	faultLeft  int
+	faultFired int  // number of faults that have fired so far
+	suspended  bool // the harness's own reads (reopen oracle) do not count and do not fail
 }
 
+var errInjected = errors.New("injected storage failure")
+
 func newMemStore() *memStore { return &memStore{m: map[string][]byte{}} }
+
+// arm makes the k-th next call (k >= 1) of the given class fail once.
+func (s *memStore) arm(class string, k int) {
+	s.mu.Lock()
+	defer s.mu.Unlock()
+	s.faultClass, s.faultLeft = class, k
+}
+
+func (s *memStore) disarm() {
+	s.mu.Lock()
+	defer s.mu.Unlock()
+	s.faultClass, s.faultLeft = "", 0
+}
+
+func (s *memStore) fired() int {
+	s.mu.Lock()
+	defer s.mu.Unlock()
+	return s.faultFired
+}
+
+// hitLocked reports whether this call of the class is the one that has to fail.
+func (s *memStore) hitLocked(class string) bool {
+	if s.suspended || s.faultClass != class {
+		return false
+	}
+	s.faultLeft--
+	if s.faultLeft > 0 {
+		return false
+	}
+	s.faultClass = ""
+	s.faultFired++
+	return true
+}
+
+func (s *memStore) hit(class string) bool {
+	s.mu.Lock()
+	defer s.mu.Unlock()
+	return s.hitLocked(class)
+}
 
 func (s *memStore) Get(k []byte) ([]byte, error) {
 	s.mu.Lock()
 	defer s.mu.Unlock()
+	if s.hitLocked("get") {
+		return nil, errInjected
+	}
 	v, ok := s.m[string(k)]
 	if !ok {
 		return nil, wmpt.ErrKVNotFound
@@ -66,6 +116,9 @@ func (s *memStore) applyLocked(e logEntry) {
 func (s *memStore) Put(k, v []byte) error {
 	s.mu.Lock()
 	defer s.mu.Unlock()
+	if s.hitLocked("put") {
+		return errInjected
+	}
 	s.applyLocked(logEntry{ops: []kvOp{{k: string(k), v: append([]byte(nil), v...)}}})
 	return nil
 }
@@ -73,6 +126,9 @@ func (s *memStore) Put(k, v []byte) error {
 func (s *memStore) Delete(k []byte) error {
 	s.mu.Lock()
 	defer s.mu.Unlock()
+	if s.hitLocked("del") {
+		return errInjected
+	}
 	s.applyLocked(logEntry{ops: []kvOp{{del: true, k: string(k)}}})
 	return nil
 }
@@ -116,6 +172,9 @@ type memBatch struct {
 func (b *memBatch) Put(k, v []byte) error {
 	b.mu.Lock()
 	defer b.mu.Unlock()
+	if b.s.hit("bput") {
+		return errInjected
+	}
 	b.ops = append(b.ops, kvOp{k: string(k), v: append([]byte(nil), v...)})
 	return nil
 }
@@ -123,6 +182,9 @@ func (b *memBatch) Put(k, v []byte) error {
 func (b *memBatch) Delete(k []byte) error {
 	b.mu.Lock()
 	defer b.mu.Unlock()
+	if b.s.hit("bdel") {
+		return errInjected
+	}
 	b.ops = append(b.ops, kvOp{del: true, k: string(k)})
 	return nil
 }
@@ -132,6 +194,9 @@ func (b *memBatch) Commit(bool) error {
 	defer b.mu.Unlock()
 	b.s.mu.Lock()
 	defer b.s.mu.Unlock()
+	if b.s.hitLocked("bcommit") {
+		return errInjected // atomic: nothing of the batch is applied; the batch can be committed again
+	}
 	b.s.applyLocked(logEntry{ops: b.ops, batch: true})
 	b.ops = nil
 	return nil
@@ -309,6 +374,19 @@ func (c wcontent) blocksToCheck() []uint64 {
 	return bs
 }
 
+// rootIsBranch: two live keys differ in their first nibble (the root of the trie is a branch node)
+func (c wcontent) rootIsBranch() bool {
+	first := -1
+	for k := range c {
+		n := int(k[0] >> 4)
+		if first >= 0 && n != first {
+			return true
+		}
+		first = n
+	}
+	return false
+}
+
 // hasEqualPair reports whether two different keys carry byte-equal (value, weight): their value nodes (and, with an
 // equal key suffix, their short nodes) have the same hash and share one storage entry (matcher of finding C11-F2).
 func (c wcontent) hasEqualPair() bool {
@@ -431,6 +509,17 @@ func openTrie(st storage.StorageAdapter, root []byte, weight uint64) *wmpt.Weigh
 // of the first and last block of every interval), every value and the verification of every block proof with the
 // oracle content c. Returns the list of discrepancies.
 func checkReopen(what string, st storage.StorageAdapter, root []byte, weight uint64, c wcontent) (fails []string) {
+	if ms, ok := st.(*memStore); ok {
+		ms.mu.Lock()
+		was := ms.suspended
+		ms.suspended = true
+		ms.mu.Unlock()
+		defer func() {
+			ms.mu.Lock()
+			ms.suspended = was
+			ms.mu.Unlock()
+		}()
+	}
 	defer func() {
 		if r := recover(); r != nil {
 			fails = append(fails, fmt.Sprintf("%s: panic while reading the reopened trie: %v", what, r))
